@@ -106,6 +106,10 @@ def gen_config(seed, tier='quick', family=None):
         'preexisting_output': wl.random() < 0.15,
         'extra_measurements': wl.random() < 0.4,
         'seed': seed,
+        # further option dimensions (swarm): each is off in most runs
+        'group_sites': 2 if (fam in ('tebd', 'tdvp2', 'tdvp1', 'dmrg2', 'expmpo') and L >= 6 and wl.random() < 0.25) else 1,
+        'measure_initial': wl.random() > 0.15,
+        'save_stats': wl.random() > 0.2,
     }
     if fam in ('idmrg', 'vumps'):
         cfg['L'] = 2
@@ -118,6 +122,7 @@ def gen_config(seed, tier='quick', family=None):
             'fixed_sweeps': wl.random() < 0.6,  # convergence criteria disabled: the sweep count is fixed
             'measure_at_checkpoints': wl.random() < 0.5,
             'max_hours': wl.choice([None, None, 1.0]),
+            'combine': wl.choice([False, False, True]),
         })
         # chi_list: ramp the bond dimension up during the run; a value of None means "chi_max at initialisation"
         r = wl.random()
@@ -134,6 +139,8 @@ def gen_config(seed, tier='quick', family=None):
             'order': wl.choice([1, 2, 4, '4_opt']) if fam in ('tebd', 'qrtebd', 'tdcorr', 'tdcorr_bk', 'spectral') else None,
             'compression': wl.choice(['SVD', 'variational', 'zip_up']) if fam == 'expmpo' else None,
             'approximation': wl.choice(['I', 'II']) if fam == 'expmpo' else None,
+            'start_time': wl.choice([0.0, 0.0, 0.0, 1.5]),
+            'preserve_norm': wl.choice([None, None, True, False]),
         })
     return cfg
 
@@ -165,11 +172,19 @@ def build_params(cfg, out_name='results'):
         'save_every_x_seconds': cfg['save_every'],
         'overwrite_output': bool(cfg['preexisting_output']),
     }
+    if cfg.get('group_sites', 1) > 1:
+        params['group_sites'] = cfg['group_sites']
+    if not cfg.get('measure_initial', True):
+        params['measure_initial'] = False
+    if is_gs and not cfg.get('save_stats', True):
+        params['save_stats'] = False
     trunc = {'chi_max': cfg['chi'], 'svd_min': 1.0e-10}
     if is_gs:
         ap = {'trunc_params': trunc, 'max_sweeps': cfg['max_sweeps'], 'N_sweeps_check': cfg['N_sweeps_check'],
               'mixer': cfg['mixer'], 'lanczos_params': {'N_min': 2, 'N_max': 20},
               'max_trunc_err': None}  # small chi on purpose: do not abort on the truncation-error sanity check
+        if cfg.get('combine') and fam != 'vumps':
+            ap['combine'] = True
         if cfg.get('chi_list'):
             ap['chi_list'] = {int(k): v for k, v in cfg['chi_list']}
         if cfg['mixer']:
@@ -200,8 +215,12 @@ def build_params(cfg, out_name='results'):
             ap['approximation'] = cfg['approximation']
         if cfg['family'].startswith('tdvp'):
             ap['lanczos_params'] = {'N_min': 2, 'N_max': 20}
+        if cfg.get('start_time'):
+            ap['start_time'] = cfg['start_time']
+        if cfg.get('preserve_norm') is not None:
+            ap['preserve_norm'] = cfg['preserve_norm']
         params['algorithm_params'] = ap
-        params['final_time'] = cfg['dt'] * cfg['N_steps'] * cfg['n_outer']
+        params['final_time'] = cfg.get('start_time', 0.0) + cfg['dt'] * cfg['N_steps'] * cfg['n_outer']
         if fam in ('tdcorr', 'tdcorr_bk', 'spectral'):
             params['operator_t0'] = {'opname': 'Sz', 'i': L // 2}
             params['operator_t'] = 'Sz'
@@ -245,9 +264,19 @@ def content_digest(data):
     meas = data.get('measurements', {})
     for k in sorted(meas):
         v = meas[k]
-        a = np.asarray(v)
         h.update(k.encode())
-        h.update(_canon_bytes(a) if a.dtype != object else repr(v).encode())
+        try:
+            a = np.asarray(v)
+        except ValueError:  # ragged list (e.g. the first measurement has another shape): element by element
+            a = None
+        if a is not None and a.dtype != object:
+            h.update(_canon_bytes(a))
+        else:
+            for x in v:
+                try:
+                    h.update(_canon_bytes(np.asarray(x)))
+                except (ValueError, TypeError):
+                    h.update(repr(x).encode())
     if 'energy' in data:
         h.update(repr(complex(data['energy'])).encode())
     rd = data.get('resume_data', {})
